@@ -543,12 +543,20 @@ fn exec_twins(sc: &Scenario) -> Report {
             match forget % 3 {
                 0 => pb.reset_eta(),
                 1 => pb.reset(),
+                _ if sc.c("seek_via") == 1 => {
+                    // backwards seek through the builder: the bar "starts" from a position
+                    // behind the progress it has made
+                    let _ = pb.clone().with_position(p_sync / 2);
+                }
                 _ => {
                     // backwards seek
                     pb.set_position(p_sync / 2);
                     pb.tick();
                 }
             }
+        }
+        if forget % 3 == 2 && sc.c("seek_via") == 1 {
+            r.probe("forget_rewind_with_position");
         }
         r.probe(["forget_reset_eta", "forget_reset", "forget_rewind"][(forget % 3) as usize]);
         if forget % 3 == 2 && p_sync / 2 == p_sync {
@@ -646,7 +654,7 @@ impl Check for C09 {
         "C09"
     }
     fn rule_text(&self) -> String {
-        "laws: 1..60 updates (gap, position) with gaps log-uniform 1 ms..3 days plus exact cadences, positions up to 1e15, reset_eta/reset_elapsed/reset/backwards seeks/set_length/finish/abandon at random places, bars built with_elapsed, queries at update instants and during stalls; checked: per_sec finite and >= 0 and eta/duration well formed at every instant strictly after creation or the last reset, per_sec <= largest sample rate since the last reset (an abandoned bar: <= the largest sample rate since creation unless the bar was told to forget), successive stall queries non-increasing, eta == remaining/per_sec (0 when finished / unknown length / no progress), duration == elapsed + eta, all at one frozen instant. steady: every update lies exactly on p = p0 + r (t - t0) (k steps per ms with whole-ms gaps, or one step per m ms with gaps multiple of m; in one run out of four the unit is the microsecond, so that updates come closer together than 1 ms) with irregular cadence => |per_sec - r| <= 1e-7 r at every update. twins: two bars with different pre-histories are synchronised (same position at the same instant: recorded by both estimators; or - before reset() - not at all; or - before reset_eta - reached by one of them through a position update its estimator never saw because the position rate limiter skipped the tick), forget (reset_eta / reset / backwards seek) and get the same post-history => bit-identical per_sec and eta. ticked: a bar (hidden or visible) under a steady ticker of 1/10/50 ms is moved along a line by set_position only (with a ticker installed position calls do not feed the estimator: the ticker does); after 20 ticks and 20 steps per_sec must lie within 50 % of the true rate. The oracle states laws only: a different estimator that satisfies them passes. Non-trivial: laws = >= 2 recorded samples; steady = >= 2 updates; twins = >= 2 post operations. Distinct = distinct scenario hash.".into()
+        "laws: 1..60 updates (gap, position) with gaps log-uniform 1 ms..3 days plus exact cadences, positions up to 1e15, reset_eta/reset_elapsed/reset/backwards seeks/set_length/finish/abandon at random places, bars built with_elapsed, queries at update instants and during stalls; checked: per_sec finite and >= 0 and eta/duration well formed at every instant strictly after creation or the last reset, per_sec <= largest sample rate since the last reset (an abandoned bar: <= the largest sample rate since creation unless the bar was told to forget), successive stall queries non-increasing, eta == remaining/per_sec (0 when finished / unknown length / no progress), duration == elapsed + eta, all at one frozen instant. steady: every update lies exactly on p = p0 + r (t - t0) (k steps per ms with whole-ms gaps, or one step per m ms with gaps multiple of m; in one run out of four the unit is the microsecond, so that updates come closer together than 1 ms) with irregular cadence => |per_sec - r| <= 1e-7 r at every update. twins: two bars with different pre-histories are synchronised (same position at the same instant: recorded by both estimators; or - before reset() - not at all; or - before reset_eta - reached by one of them through a position update its estimator never saw because the position rate limiter skipped the tick), forget (reset_eta / reset / backwards seek, one seek in three through `with_position` on a clone) and get the same post-history => bit-identical per_sec and eta. ticked: a bar (hidden or visible) under a steady ticker of 1/10/50 ms is moved along a line by set_position only (with a ticker installed position calls do not feed the estimator: the ticker does); after 20 ticks and 20 steps per_sec must lie within 50 % of the true rate. The oracle states laws only: a different estimator that satisfies them passes. Non-trivial: laws = >= 2 recorded samples; steady = >= 2 updates; twins = >= 2 post operations. Distinct = distinct scenario hash.".into()
     }
     fn assumptions(&self) -> Vec<String> {
         vec![
@@ -767,6 +775,7 @@ impl Check for C09 {
                 sc.set("sync_gap", log_uniform(rng, 1e6, 1e11));
                 sc.set("after_sync_gap", *rng.pick(&[0, 1, 1_000_000, 5_000_000_000]));
                 sc.set("forget", rng.below(3));
+                sc.set("seek_via", (sc.c("forget") == 2 && rng.chance(1, 3)) as u64);
                 sc.set("sync_kind", rng.below(3));
                 let mut post = vec![];
                 let mut pos = if sc.c("forget") == 0 { sc.c("sync_pos") } else { 0 };
